@@ -206,6 +206,7 @@ def c05(g, tier):
         yield build_session(f"C05/rand/{i}", k, calls, g=g)
     yield from midsize_sessions(g, "C05/mid", ["nack", "fir"])
     yield from nack_sibling_sessions(g, 60 if tier == "quick" else 2000, "C05/sib")
+    yield from nack_regroup_sessions(g, "C05/regroup")
     yield from big_sli_sessions(g, "C05/bigsli")
     # RPSI: every length x ignored bits
     maxlen = 20 if tier == "quick" else 300
@@ -255,6 +256,7 @@ def c06(g, tier):
     yield from type0_sessions(g, "C06/type0")
     yield from nack_sibling_sessions(g, 80 if tier == "quick" else 2000, "C06/sib")
     yield from nack_tiny_universe_sessions(g, 10 if tier == "quick" else 100, "C06/tiny")
+    yield from nack_regroup_sessions(g, "C06/regroup")
     for sess in c14_big(g):
         yield [o for o in sess if o["op"] not in ("cparse", "cnext")] + [{"op": "write_into", "rel": 5, "len": 64, "fill": 1}]
     # standalone SDES item / chunk writers
@@ -290,6 +292,7 @@ def c07_extra(g, tier):
     yield from nack_sibling_sessions(g, 60 if tier == "quick" else 2000, "C07/sib")
     yield from type0_sessions(g, "C07/type0")
     yield from nack_tiny_universe_sessions(g, 4 if tier == "quick" else 100, "C07/tiny")
+    yield from nack_regroup_sessions(g, "C07/regroup")
 
 
 def c17(g, tier):
@@ -520,6 +523,20 @@ def nack_sibling_sessions(g, n, sidp):
             ops += calls_to_ops("tfb", calls) + [{"op": "calc_size"}, {"op": "write_into", "rel": 0, "len": 64, "fill": 0},
                                                  {"op": "parse", "kind": "tfb", "src": "image"}]
         yield ops
+
+
+def nack_regroup_sessions(g, sidp):
+    """two NACK sets with the same size, smallest and largest member, one dense (few words) and one spread (many
+    words), sized and written one after the other, in both orders"""
+    for k in (8, 64, 1030):
+        dense = list(range(1000, 1000 + k - 1)) + [40000]
+        spread = [1000] + [1100 + 20 * i for i in range(k - 2)] + [40000]
+        for order in ((dense, spread, dense), (spread, dense, spread)):
+            ops = [reset(f"{sidp}/{k}/{'ds' if order[0] is dense else 'sd'}")]
+            for adds in order:
+                calls = [{"c": "new", "fci": {"f": "nack", "adds": adds}, "owned": False}]
+                ops += calls_to_ops("tfb", calls) + [{"op": "calc_size"}, {"op": "write_into", "rel": 0, "len": 64, "fill": 1}]
+            yield ops
 
 
 def big_sli_sessions(g, sidp):
@@ -993,6 +1010,22 @@ def nack_many(g, sidp):
         yield [reset(f"{sidp}/{nw}"), {"op": "parse", "kind": "nack", "b": b}]
 
 
+def afb_sessions(g, sidp, op="parse"):
+    """application layer feedback (PSFB FMT 15) and other formats whose body starts with a well-known 4-byte
+    identifier, followed by every small number of words and a count-like byte of every size"""
+    r = g.r
+    for ident in ([0x52, 0x45, 0x4d, 0x42], [0x41, 0x46, 0x42, 0x20]):
+        for fmt in (15, 1, 3, 4):
+            for nw in range(0, 7):
+                for cb in (0, 1, 2, 5, 255):
+                    fci = ident + ([cb] + g.bytes_(4 * nw - 1) if nw else [])
+                    for pad in (0, 4):
+                        total = 12 + len(fci) + pad
+                        b = hdr(2, pad > 0, fmt, 206, total // 4 - 1) + g.u32bytes() + g.u32bytes() + fci + ([0] * (pad - 1) + [pad] if pad else [])
+                        o = {"op": "parse", "kind": "pfb", "b": b} if op == "parse" else {"op": "parse_all", "b": b}
+                        yield [reset(f"{sidp}/{fmt}/{nw}/{cb}/{pad}/{ident[0]}"), o]
+
+
 def nack_iter_sessions(g, n, sidp):
     r = g.r
     for i in range(n):
@@ -1072,6 +1105,7 @@ def c01(g, tier):
     yield from padding_count_sweep(g, "C01/padcnt")
     yield from bye_body_sweep(g, "C01/bye")
     yield from huge_direct_sessions(g, "C01/huge")
+    yield from afb_sessions(g, "C01/afb", op="parse_all")
     yield from big_sli_sessions(g, "C01/bigsli")
 
 
@@ -1172,6 +1206,7 @@ def c12(g, tier):
         yield build_session(f"C12/img/{i}", k, calls, rt=False, extra=[{"op": "parse_all", "src": "image"}])
     yield from concat_sessions(g, 300 if q else 8000, "C12/concat")
     yield from fci_sessions(g, 600 if q else 15000, "C12/fci", op="parse_all")
+    yield from afb_sessions(g, "C12/afb", op="parse_all")
     yield from reparse_sessions(g, 150 if q else 4000, "C12/reparse")
     yield from count_body_sweep(g, "C12/cnt")
 
@@ -1245,8 +1280,13 @@ def c14(g, tier):
 
 
 def c14_big(g):
-    """compounds whose total size passes 64 KiB (each member well below the per-packet limit)"""
+    """compounds whose total size passes 64 KiB / 256 KiB (each member below the per-packet limit)"""
     rr = {"kind": "rr", "calls": [{"c": "new", "ssrc": g.u32()}], "pb": False}
+    u1 = {"kind": "unk", "calls": [{"c": "new", "type": 78, "data": [], "big": {"rep": 5, "n": 150000}, "via": "new"}], "pb": False}
+    u2 = {"kind": "app", "calls": [{"c": "new", "ssrc": g.u32(), "name": [66]}, {"c": "data", "v": [], "big": {"rep": 6, "n": 150000}}, {"c": "padding", "v": 8}], "pb": True}
+    calls = [{"c": "new"}, {"c": "add_packet", "v": rr}, {"c": "add_packet", "v": u1}, {"c": "add_packet", "v": u2}]
+    yield [reset("C14/big/300k")] + calls_to_ops("compound", calls) + [
+        {"op": "calc_size"}, {"op": "write_into", "rel": 0, "len": 64, "fill": 0}, {"op": "cparse", "src": "image"}] + [{"op": "cnext"}] * 4
     for nbytes in (65500, 65508, 65536, 131072, 262100):
         unk = {"kind": "unk", "calls": [{"c": "new", "type": 77, "data": [], "big": {"rep": 9, "n": nbytes}, "via": "builder"}], "pb": True}
         app = {"kind": "app", "calls": [{"c": "new", "ssrc": g.u32(), "name": [65]}, {"c": "padding", "v": 4}], "pb": False}
@@ -1264,6 +1304,7 @@ def c15(g, tier):
     yield from big_sli_sessions(g, "C15/bigsli")
     yield from nack_pair_sessions(g, 300 if q else 8000, "C15/npair")
     yield from huge_direct_sessions(g, "C15/huge")
+    yield from afb_sessions(g, "C15/afb")
     # single-word sweeps
     r = g.r
     pids = [0, 1, 0x7fff, 0xffee, 0xffef, 0xfff0, 0xffff]
